@@ -32,7 +32,7 @@ struct Cfg {
     dir_name: String,
 }
 
-const DIR_NAMES: [&str; 10] = ["my data", "store#1", "which?", "tasks%41", "d\u{e4}ta-\u{fc}", "a'b\"c", "x;y&z", "semi:colon=eq", "file:name", "trailing."];
+const DIR_NAMES: [&str; 12] = ["not/yet/there", "fresh volume/sync", "my data", "store#1", "which?", "tasks%41", "d\u{e4}ta-\u{fc}", "a'b\"c", "x;y&z", "semi:colon=eq", "file:name", "trailing."];
 
 impl Cfg {
     fn json(&self) -> Value {
@@ -310,7 +310,7 @@ fn run_cfg(cfg: &Cfg, bin: &std::path::Path, rng: &mut Rng, cov: &mut Cov) -> Re
         return Ok(Some(format!("no database file under the configured data directory {}", data.display())));
     }
     // ... and nowhere else: the configured directory is the only entry next to it
-    let siblings: Vec<String> = std::fs::read_dir(dir.path()).map(|r| r.filter_map(|e| e.ok()).map(|e| e.file_name().to_string_lossy().to_string()).filter(|n| *n != cfg.dir_name).collect()).unwrap_or_default();
+    let siblings: Vec<String> = std::fs::read_dir(dir.path()).map(|r| r.filter_map(|e| e.ok()).map(|e| e.file_name().to_string_lossy().to_string()).filter(|n| *n != cfg.dir_name.split('/').next().unwrap_or("")).collect()).unwrap_or_default();
     if !siblings.is_empty() {
         return Ok(Some(format!("the server was given the data directory {:?} but also created {siblings:?} next to it", data.display().to_string())));
     }
@@ -327,7 +327,7 @@ fn run_cfg(cfg: &Cfg, bin: &std::path::Path, rng: &mut Rng, cov: &mut Cov) -> Re
     // ---- kill -9 and restart on the same directory (listen given in another form); in half of
     // the configurations another process (a backup job, an operator's sqlite shell) holds the
     // database open meanwhile, so that the write-ahead log is still on disk at the restart
-    let bystander: Option<rusqlite::Connection> = if cfg.addrs[0].len() % 2 == 0 { rusqlite::Connection::open(db_file(&data)).ok() } else { None };
+    let bystander: Option<rusqlite::Connection> = if rng.pct(50) { rusqlite::Connection::open(db_file(&data)).ok() } else { None };
     if let Some(c) = &bystander {
         let _: Result<i64, _> = c.query_row("SELECT count(*) FROM clients", [], |r| r.get(0));
         // one more acknowledged request while the other connection is open
@@ -502,7 +502,7 @@ pub fn finalize(out: ShardOut, is_replay: bool) -> CheckResult {
         "configurations_completed": out.executed,
         "situations": top.iter().take(40).map(|(k, v)| json!({"situation": k, "n": v})).collect::<Vec<_>>(),
     });
-    let required = ["unbindable-address:", "address-served:ipv4", "address-served:ipv6", "address-served:name", "allow:many", "allow:none", "kill9-restart", "urgency-by-versions:Low", "urgency-by-versions:High", "urgency-by-age:Low", "urgency-by-age:High", "urgency-by-age:None", "data-dir:env", "data-dir:flag", "data-dir-name:unusual"];
+    let required = ["unbindable-address:", "address-served:ipv4", "address-served:ipv6", "address-served:name", "allow:many", "allow:none", "kill9-restart", "urgency-by-versions:Low", "urgency-by-versions:High", "urgency-by-age:Low", "urgency-by-age:High", "urgency-by-age:None", "data-dir:env", "data-dir:flag", "data-dir-name:unusual", "kill9-restart:another-process-has-the-database-open"];
     let verdict = if !out.found.is_empty() {
         Verdict::Violated(out.found)
     } else if !out.errors.is_empty() {
